@@ -432,3 +432,26 @@ def _slice(fn, focus):
         return out
 
     fn.body = prune(fn.body) or [ast.Pass()]
+
+
+def bound_args(repo, module, call, resolve=None):
+    """{parameter name: argument text} of `call`, bound through the signature of the package function it calls (positional and
+    keyword forms give the same mapping); `resolve` (expr -> expr) is applied to each argument first.  None if the callee is
+    not a function of the package or the call does not fit its signature."""
+    name = dotted(call.func)
+    target = repo.lookup(repo.resolve_name(module, name)) if name else None
+    if target is None and name in module.funcs:
+        target = module.funcs[name]
+    if target is None or not hasattr(target, "node") or not isinstance(target.node, (ast.FunctionDef, ast.AsyncFunctionDef)):
+        return None
+    params = [a.arg for a in target.node.args.args]
+    out = {}
+    for i, a in enumerate(call.args):
+        if isinstance(a, ast.Starred) or i >= len(params):
+            return None
+        out[params[i]] = unparse(resolve(a) if resolve else a)
+    for k in call.keywords:
+        if k.arg is None or k.arg in out:
+            return None
+        out[k.arg] = unparse(resolve(k.value) if resolve else k.value)
+    return out
